@@ -39,7 +39,7 @@ JudgeEnd(T, n) ==
 Judge(T) == /\ TLCSet(1, TLCGet(1) + 1)
             /\ (T.hang = 0 \/ Say(T, "V", "C15.cache_safe", T.cls \o "/hang"))
             /\ \A n \in 1..Len(T.events) : JudgeEnd(T, n)
-JInit == l = 0 /\ tid = 0 /\ Init
+JInit == l = 0 /\ tid = 0 /\ Init /\ flushy = TRUE
 JNext == l < Len(Traces) /\ l' = l + 1 /\ Judge(Traces[l + 1]) = TRUE /\ UNCHANGED <<vars, tid>>
 JudgeSpec == JInit /\ [][JNext]_tvars
 
@@ -76,7 +76,7 @@ EnvEv(e) == \/ e.op = "begin" /\ Start(e.p)
             \/ e.op = "tick" /\ Tick
             \/ e.op = "rewrite" /\ RewriteFasta
             \/ e.op = "delete" /\ Delete(e.f)
-TInit == tid \in 1..Len(Traces) /\ l = 1 /\ Init
+TInit == tid \in 1..Len(Traces) /\ l = 1 /\ Init /\ flushy = (Traces[tid].flushy = 1)
 Consume == l <= Len(Traces[tid].events) /\ l' = l + 1 /\ UNCHANGED tid /\ (FileOp(E) \/ EndEv(E) \/ EnvEv(E))
 Accept == l = Len(Traces[tid].events) + 1 /\ l' = l + 1 /\ UNCHANGED <<vars, tid>>
           /\ PrintT(<<"M", Traces[tid].tid, "accepted", "">>)
